@@ -1,10 +1,50 @@
-(* C06 -- theorems follow in ForestProofs; placeholder example *)
+(* C06 — cooked view = raw view with imports inlined and inherited attributes integrated. *)
 From Coq Require Import NArith List Bool.
-From Dwgrep Require Import Forest.
+From Dwgrep Require Import Forest ForestProofs.
 Import ListNotations.
 Local Open Scope N_scope.
+
+(* imports are replaced in place: the cooked children of a list of DIEs are the
+   concatenation, in order, of what each of them expands to ... *)
+Theorem C06_inlining_in_place : forall fuel f l1 l2,
+  cooked_kids fuel f (l1 ++ l2) = cooked_kids fuel f l1 ++ cooked_kids fuel f l2.
+Proof. exact cooked_kids_app. Qed.
+(* ... recursively: no resolvable DW_TAG_imported_unit is left ... *)
+Theorem C06_no_import_left : forall fuel f kids, Forall (fun k => import_target f k = None) (cooked_kids fuel f kids).
+Proof. exact cooked_kids_inlined. Qed.
+(* ... and where nothing is imported the cooked children are the raw ones *)
+Theorem C06_no_imports_no_change : forall f kids n,
+  Forall (fun k => import_target f k = None) kids -> cooked_kids (S n) f kids = kids.
+Proof. exact cooked_kids_no_imports. Qed.
+
+(* `attribute` never yields a name twice, through chains and forks of any shape *)
+Theorem C06_no_name_twice : forall fuel f d, NoDup (names (cooked_attrs fuel f d)).
+Proof. exact cooked_attrs_names_nodup. Qed.
+(* the DIE's own attributes come first; what follows was brought in through
+   DW_AT_specification / DW_AT_abstract_origin and is never DW_AT_sibling or DW_AT_declaration *)
+Theorem C06_own_then_inherited : forall fu f d,
+  exists own inherited,
+    cooked_attrs (S fu) f d = own ++ inherited /\
+    Forall (fun oa => fst oa = d_off d /\ In (snd oa) (d_attrs d)) own /\
+    Forall (fun n => should_integrate n = true) (names inherited).
+Proof. exact cooked_attrs_own_then_inherited. Qed.
+Print Assumptions C06_inlining_in_place.
+Print Assumptions C06_no_import_left.
+Print Assumptions C06_no_imports_no_change.
+Print Assumptions C06_no_name_twice.
+Print Assumptions C06_own_then_inherited.
+
+(* non-vacuity: a diamond import and a DIE with both links *)
 Example C06_example :
   let pu := Die 50 60 true 1 [] [Die 55 52 false 2 [] []] in
-  let f := [mkunit 0 4 0 (Some (Die 11 17 true 1 [] [Die 15 61 false 3 [mkattr 24 16 (Some 50)] []; Die 20 52 false 2 [] []])); mkunit 40 4 0 (Some pu)] in
-  map r_kids (cooked_rows f) = [[55; 20]; []; []].
+  let f := [mkunit 0 4 0 (Some (Die 11 17 true 1 [] [Die 15 61 false 3 [mkattr 24 16 (Some 50)] []; Die 20 52 false 2 [] []; Die 22 61 false 3 [mkattr 24 16 (Some 50)] []]));
+            mkunit 40 4 0 (Some pu)] in
+  map r_kids (cooked_rows f) = [[55; 20; 55]; []; []; []].
+Proof. vm_compute. reflexivity. Qed.
+Example C06_example_links :
+  let a := Die 30 52 false 2 [mkattr 3 8 None; mkattr 60 12 None] [] in
+  let b := Die 35 52 false 2 [mkattr 3 8 None; mkattr 58 11 None] [] in
+  let d := Die 40 52 false 3 [mkattr 49 19 (Some 35); mkattr 71 19 (Some 30)] [] in
+  let f := [mkunit 0 4 0 (Some (Die 11 17 true 1 [] [a; b; d]))] in
+  map (fun oa => (fst oa, a_name (snd oa))) (cooked_attrs 5 f d) = [(40, 49); (40, 71); (30, 3); (35, 58)].
 Proof. vm_compute. reflexivity. Qed.
